@@ -199,6 +199,21 @@ class Gen:
             d["suit-digest-bytes"] = {"envelope": self.envelope(depth + 1)}
         return d
 
+    def supplied_digest(self):
+        """a digest value supplied in the description, in every form the language has for it (it must not survive when it disagrees)"""
+        v = self.rng.randrange(6)
+        if v == 0:
+            return self.hexbytes(32)
+        if v == 1:
+            return self.hexbytes(32).upper()
+        if v == 2:
+            return {"raw": self.hexbytes(32)}
+        if v == 3:
+            return {"file_direct": self.new_file(bytes(self.rng.randrange(256) for _ in range(32)))}
+        if v == 4:
+            return {"file": self.new_file(self.blob())}
+        return self.hexbytes(self.pick([0, 16, 48, 64]))
+
     def g_SuitDigestRaw(self, depth):
         return {"suit-digest-algorithm-id": self.pick(ALGS), "suit-digest-bytes": self.hexbytes(32)}
 
@@ -322,7 +337,7 @@ class Gen:
             else:
                 dg = {"suit-digest-algorithm-id": self.pick(ALGS)}
                 if self.rng.random() < 0.5:
-                    dg["suit-digest-bytes"] = self.hexbytes(32)      # supplied value that must not survive
+                    dg["suit-digest-bytes"] = self.supplied_digest()      # supplied value that must not survive
                 man[name] = dg
                 if mode == 2:
                     env[name] = body
@@ -331,7 +346,7 @@ class Gen:
             man["suit-reference-uri"] = "u" * stretch
         auth = {"SuitDigest": {"suit-digest-algorithm-id": self.pick(ALGS)}}
         if self.rng.random() < 0.4:
-            auth["SuitDigest"]["suit-digest-bytes"] = self.hexbytes(32)
+            auth["SuitDigest"]["suit-digest-bytes"] = self.supplied_digest()
         nblocks = self.pick([0, 0, 0, 1, 1, 2, 3, 4] + ([11] if self.big or self.rng.random() < 0.1 else []))
         for suf in self.star_suffixes(nblocks):
             auth["SuitAuthentication" + suf] = self.auth_block(depth)
